@@ -2,6 +2,7 @@ package c16
 
 import (
 	"fmt"
+	"strings"
 
 	apiv1 "k8s.io/api/core/v1"
 	"sigs.k8s.io/controller-runtime/pkg/client"
@@ -73,6 +74,8 @@ type btpSpec struct {
 	host     string
 	cmRefs   []gatewayv1.LocalObjectReference
 	wk       string // "" = nil
+	// foreign: number of status.ancestors entries written by OTHER controllers (16 = the list is full: NGF ignores the policy)
+	foreign int
 }
 
 func mkBTP(b btpSpec) *v1alpha3.BackendTLSPolicy {
@@ -87,7 +90,24 @@ func mkBTP(b btpSpec) *v1alpha3.BackendTLSPolicy {
 	if b.wk != "" {
 		o.Spec.Validation.WellKnownCACertificates = ptr(v1alpha3.WellKnownCACertificatesType(b.wk))
 	}
+	for i := 0; i < b.foreign; i++ {
+		o.Status.Ancestors = append(o.Status.Ancestors, v1alpha2.PolicyAncestorStatus{
+			AncestorRef: gatewayv1.ParentReference{
+				Namespace: ptr(gatewayv1.Namespace(b.ns)), Name: gatewayv1.ObjectName(fmt.Sprintf("other-gw-%d", i)),
+			},
+			ControllerName: gatewayv1.GatewayController(fmt.Sprintf("example.com/other-controller-%d", i)),
+		})
+	}
 	return o
+}
+
+// padCert appends n bytes of non-PEM text after the certificate block: the pair still loads (pem.Decode ignores the
+// rest) but the key-pair file gets another size.
+func padCert(s *apiv1.Secret, n int) *apiv1.Secret {
+	if n > 0 {
+		s.Data[apiv1.TLSCertKey] = append(s.Data[apiv1.TLSCertKey], []byte("# "+strings.Repeat("p", n)+"\n")...)
+	}
+	return s
 }
 
 func cmRef(name string) []gatewayv1.LocalObjectReference {
@@ -193,6 +213,51 @@ func Fixed() []*Case {
 		p.Gateway("default", "gw", p.DefaultClass, 2,
 			p.Listener{Name: "l0", Port: 443, Protocol: "HTTPS", Hostname: "foo.example.com", CertRefs: []string{"tls-a"}}),
 		p.HTTPRoute("default", "hr0", 3, wholeGW, nil, ruleTo("/twins", "svc-b", "team-a/svc-b")))
+	// 10. ONE invalid Secret referenced by several HTTPS listeners (different ports / hostnames), per invalidity kind: the
+	// resolver's cache must answer every listener alike (seeded change C16-r4m1)
+	for _, kind := range []struct {
+		name string
+		sec  client.Object
+	}{
+		{"malformed", mkSecret("default", "tls-bad", 2, secMalformed)}, {"wrong-type", mkSecret("default", "tls-bad", 3, secOpaque)},
+		{"swapped-key", mkSecret("default", "tls-bad", 9, secSwapped)}, {"missing-key", mkSecret("default", "tls-bad", 10, secNoKey)},
+		{"missing", p.Namespace("unused-ns", nil)},
+	} {
+		add("shared-invalid-secret-"+kind.name, kind.sec, p.TLSSecret("default", "tls-a", 1),
+			p.Gateway("default", "gw", p.DefaultClass, 2,
+				p.Listener{Name: "b0", Port: 443, Protocol: "HTTPS", Hostname: "foo.example.com", CertRefs: []string{"tls-bad"}},
+				p.Listener{Name: "b1", Port: 8443, Protocol: "HTTPS", Hostname: "cafe.example.com", CertRefs: []string{"tls-bad"}},
+				p.Listener{Name: "b2", Port: 443, Protocol: "HTTPS", Hostname: "bar.org", CertRefs: []string{"tls-bad"}},
+				p.Listener{Name: "ok", Port: 443, Protocol: "HTTPS", Hostname: "a.example.com", CertRefs: []string{"tls-a"}}),
+			p.HTTPRoute("default", "hr0", 3, wholeGW, nil, ruleTo("/", "svc-a")))
+	}
+	// 11. a well-formed BackendTLSPolicy whose ancestor status list is full (16 entries of other controllers) / almost full
+	// (15) targets a referenced Service: 16 = ignored, the backend must fail closed; 15 = served with verified TLS
+	// (seeded change C16-r4m2)
+	for _, nAnc := range []int{16, 15} {
+		add(fmt.Sprintf("btp-ancestors-%d", nAnc), ca1,
+			mkBTP(btpSpec{ns: "default", name: "pol-p", age: 5, targets: []string{"svc-b"}, host: "b.example.com", cmRefs: cmRef("ca-1"), foreign: nAnc}),
+			p.TLSSecret("default", "tls-a", 1),
+			p.Gateway("default", "gw", p.DefaultClass, 2,
+				p.Listener{Name: "l0", Port: 443, Protocol: "HTTPS", Hostname: "foo.example.com", CertRefs: []string{"tls-a"}},
+				p.Listener{Name: "h", Port: 80, Protocol: "HTTP"}),
+			p.HTTPRoute("default", "hr0", 3, wholeGW, nil, ruleTo("/b", "svc-b"), ruleTo("/bb", "svc-b", "svc-b"), ruleTo("/a", "svc-a")))
+	}
+	// 12. two and three DISTINCT key pairs in one configuration, of equal and of decreasing file sizes (the generator
+	// writes them in map order: every such case is generated several times) (seeded change C16-r4m3)
+	for _, sizes := range [][]int{{0, 0}, {300, 0}, {0, 0, 0}, {600, 300, 0}, {0, 300, 600}} {
+		var objs []client.Object
+		var ls []p.Listener
+		for i, pad := range sizes {
+			name := fmt.Sprintf("tls-k%d", i)
+			objs = append(objs, padCert(p.TLSSecret("default", name, 1+i), pad))
+			ls = append(ls, p.Listener{Name: fmt.Sprintf("k%d", i), Port: 443, Protocol: "HTTPS",
+				Hostname: []string{"foo.example.com", "cafe.example.com", "bar.org"}[i], CertRefs: []string{name}})
+		}
+		objs = append(objs, p.Gateway("default", "gw", p.DefaultClass, 2, ls...),
+			p.HTTPRoute("default", "hr0", 3, wholeGW, nil, ruleTo("/", "svc-a")))
+		add(fmt.Sprintf("distinct-keypairs-%v", sizes), objs...)
+	}
 	// 8./9. exact hostname of the same LENGTH as the covering wildcard, both listener orders, route accepted by both
 	for i, order := range [][2]int{{0, 1}, {1, 0}} {
 		ls := []p.Listener{
@@ -228,7 +293,10 @@ func GenTLS(r *rng.R) *Case {
 		mkSecret(gwNS, "tls-swapped", 9, secSwapped), mkSecret(gwNS, "tls-nokey", 10, secNoKey),
 		p.TLSSecret(otherNS, "tls-a", 6), p.TLSSecret(otherNS, "tls-x", 11), p.TLSSecret(otherNS, "tls-y", 12),
 		mkSecret(otherNS, "tls-mal", 13, secMalformed))
-	good := []string{"tls-a", "tls-b", "tls-c"}
+	// good Secrets of other sizes (padding after the certificate block): which key-pair file is larger varies per case
+	c.Objs = append(c.Objs, padCert(p.TLSSecret(gwNS, "tls-big", 15), rng.Pick(r, []int{0, 200, 700})),
+		padCert(p.TLSSecret(gwNS, "tls-mid", 16), rng.Pick(r, []int{0, 100, 350})))
+	good := []string{"tls-a", "tls-b", "tls-c", "tls-big", "tls-mid"}
 	bad := []string{"tls-mal", "tls-opaque", "tls-swapped", "tls-nokey", "tls-missing"}
 	cross := []string{otherNS + "/tls-a", otherNS + "/tls-x", otherNS + "/tls-y", otherNS + "/tls-mal", otherNS + "/tls-missing"}
 
@@ -340,6 +408,29 @@ func GenTLS(r *rng.R) *Case {
 		pairRouteHost = pr[0]
 		c.tag("equal-length-pair")
 	}
+	// ONE invalid Secret shared by 2–3 further HTTPS listeners on different ports / hostnames (resolver cache)
+	if r.Chance(15, 100) {
+		ref := rng.Pick(r, []string{"tls-mal", "tls-mal", "tls-swapped", "tls-nokey", "tls-opaque", "tls-missing", otherNS + "/tls-mal"})
+		hosts := []string{"s0.example.com", "s1.example.com", "s2.bar.org"}
+		for i, k := 0, r.Range(2, 3); i < k; i++ {
+			ls = append(ls, p.Listener{Name: fmt.Sprintf("sb%d", i), Protocol: "HTTPS", Port: rng.Pick(r, []int32{443, 8443, 9443}),
+				Hostname: hosts[i], CertRefs: []string{ref}})
+		}
+		c.tag("shared-invalid-secret")
+	}
+	// 2–3 further listeners with DISTINCT good Secrets (several key-pair files of different sizes in one configuration)
+	if r.Chance(20, 100) {
+		refs := []string{"tls-big", "tls-mid", "tls-a"}
+		if r.Bool() {
+			refs = []string{"tls-a", "tls-mid", "tls-big"}
+		}
+		hosts := []string{"k0.example.com", "k1.example.com", "k2.bar.org"}
+		for i, k := 0, r.Range(2, 3); i < k; i++ {
+			ls = append(ls, p.Listener{Name: fmt.Sprintf("kp%d", i), Protocol: "HTTPS", Port: rng.Pick(r, []int32{443, 8443}),
+				Hostname: hosts[i], CertRefs: []string{refs[i]}})
+		}
+		c.tag("distinct-keypairs")
+	}
 	gw := p.Gateway(gwNS, "gw", p.DefaultClass, 2, ls...)
 	for i := range gw.Spec.Listeners {
 		gl := &gw.Spec.Listeners[i]
@@ -379,6 +470,15 @@ func GenTLS(r *rng.R) *Case {
 		age++
 		if b.age == 0 {
 			b.age = age
+		}
+		// status.ancestors written by other controllers: 16 entries = full (the policy is ignored), 15 = one slot left
+		switch k := r.Intn(100); {
+		case k < 9:
+			b.foreign = 16
+			c.tag("btp-ancestors-full")
+		case k < 14:
+			b.foreign = 15
+			c.tag("btp-ancestors-15")
 		}
 		c.Objs = append(c.Objs, mkBTP(b))
 	}
